@@ -87,6 +87,17 @@ def regression():
     ]
 
 
+def crate_configs(tier):
+    return [{"name": ID.lower()}, {"name": ID.lower() + "probe", "kind": "genprobe"}]
+
+
+def query_in_config(cfg, kind, args):
+    return (kind == "struct") == (cfg.get("kind") == "genprobe")
+
+
+probe_command = S.struct_probe_command
+
+
 def build_corpus(tier, rng):
     c = Corpus(ID)
     thorough = tier == "thorough"
@@ -94,14 +105,18 @@ def build_corpus(tier, rng):
     for _ in range(1400 if thorough else 110):
         cands.append(("random", G.string_enum(rng)))
     infos = G.classify(ID, [it for _, it in cands])
+    reals = G.real_structure(ID, [it for _, it in cands])
     rejected = 0
-    for (fam, it), info in zip(cands, infos):
+    for (fam, it), info, real in zip(cands, infos, reals):
         if not admit(it, info):
             rejected += 1
             continue
         k = c.add_def(it, family=fam, derives=["EnumString"], info=info)
+        seen = set()
         for s, note in G.fromstr_inputs(it, info, rng, flipcap=(256 if thorough else 16), nrandom=(40 if thorough else 6)):
             c.add_q(k, "fromstr", [S.hx(s)], note=note)
+            seen.add(s)
+        S.add_real_literal_inputs(c, k, it, real, seen)
     c.rejected = rejected
     return c
 
@@ -118,4 +133,6 @@ def extra_coverage(corpus, tier):
     notes = {}
     for q in corpus.queries:
         notes[q[4]] = notes.get(q[4], 0) + 1
-    return {"input_kinds": notes, "candidates_rejected_by_domain_predicate": corpus.rejected}
+    d = {"input_kinds": notes, "candidates_rejected_by_domain_predicate": corpus.rejected}
+    d.update(S.struct_coverage())
+    return d
